@@ -23,7 +23,8 @@
      - DFA / NFA input symbols match \w+ (they may be longer than one character), the NFA epsilon is a non-empty word;
      - PDA input symbols and epsilon are single \w characters, stack symbols single characters of the label class;
        TM tape symbols (incl. blank) are single characters of the TM label class.
-   The regular-expression and grammar parts of C16 are handled by the correspondence harness / other files. *)
+   The regular-expression and grammar parts of C16 are stated at the end of this file (theorems C16_regexp_..., C16_cfg_...);
+   the ANTLR-generated regexp parsers and the string splitting of the grammar parser stay in the harness. *)
 From Coq Require Import Permutation.
 From GT Require Import Base.Prelude Model.Tokens Model.Parser Model.Printer Proofs.ParserProofs.
 
@@ -169,3 +170,109 @@ Print Assumptions C16_witness.C16_dfa_duplicate_final_rejected.
 Print Assumptions C16_witness.C16_tm_duplicate_key_differs.
 Print Assumptions C16_witness.C16_pda_long_stack_symbol_rejected.
 Print Assumptions C16_witness.C16_dfa_long_symbol_ok.
+
+(* ================= C16, regular expressions and grammars =================
+   "both concrete syntaxes [of regular expressions] re-parse to an expression with the same language and the same
+   printed form; for every simple-format grammar whose variables all have rules the printed grammar re-parses to an
+   equal grammar."
+
+   Regular expressions (Model/RegexpSyntax.v): print_simple = print_regexp_simple, print_full = print_regexp,
+   print_str = Regexp.__str__; texts are lists of character codes, `Sym a` prints as the code a;
+   `symbols_ok r`: no symbol code of r is one of the syntax characters 0 1 + * ( ) . and blank
+   (is_symbol_code a = true).  parse_simple is the reference recursive-descent parser of regexp_simple.g4
+   (sum := cat ('+' cat)* ; cat := star star* ; star := atom '*'* ; atom := 0 | 1 | symbol | '(' sum ')', left
+   associative); the harness compares the ANTLR parser with it.  The re-parsed expression is `lassoc r`, r with the
+   chains of + and of concatenation re-associated to the left (`left_normal`).
+   Definition local to Proofs/RegexpSyntaxProofs.v:
+     `strip s` := filter (fun c => negb (Nat.eqb c c_space || Nat.eqb c c_dot)) s.
+
+   Grammars (Model/CFGText.v): a printed grammar is a list of lines (X, [alt; ...]) (after the splits at "->" and
+   "|"), grammars are Model/CFG.v's `cfg` with names = character codes; rule_key r = (rvar r, rrhs r) (CFG.__eq__
+   compares V, Sigma, S and the sorted printed rules, i.e. the rules as a multiset, without Alternative identities).
+   Definition local to Proofs/CFGTextProofs.v:
+     `group_by ks l` := flat_map (fun X => filter (fun p => Nat.eqb (fst p) X) l) ks
+   (the rules grouped by left-hand side: the printer emits one line per variable in order of first appearance, so the
+   re-parsed rule list is this regrouping of the original one - a permutation, not the same order in general). *)
+From GT Require Import Model.Regexp Model.RegexpSyntax Model.CFG Model.CFGText.
+From GT Require Proofs.RegexpSyntaxProofs Proofs.CFGTextProofs.
+
+Theorem C16_regexp_simple_print_parse : forall r : re, symbols_ok r ->
+  exists r', parse_simple (print_simple r) = Some r' /\ print_simple r' = print_simple r /\
+             (forall w, re_lang r' w <-> re_lang r w).
+Proof. exact RegexpSyntaxProofs.parse_print_simple. Qed.
+
+(* more precisely: the result is the left-associated form, which is r itself when r is left-associated *)
+Theorem C16_regexp_simple_print_parse_lassoc : forall r : re, symbols_ok r ->
+  parse_simple (print_simple r) = Some (lassoc r).
+Proof. exact RegexpSyntaxProofs.parse_print_simple_lassoc. Qed.
+
+Theorem C16_regexp_simple_print_parse_left_normal : forall r : re, symbols_ok r -> left_normal r ->
+  parse_simple (print_simple r) = Some r.
+Proof. exact RegexpSyntaxProofs.parse_print_simple_left_normal. Qed.
+
+Theorem C16_regexp_lassoc_print : forall r : re, print_simple (lassoc r) = print_simple r.
+Proof. exact RegexpSyntaxProofs.lassoc_print. Qed.
+
+Theorem C16_regexp_lassoc_lang : forall (r : re) (w : word), re_lang (lassoc r) w <-> re_lang r w.
+Proof. exact RegexpSyntaxProofs.lassoc_equiv. Qed.
+
+Theorem C16_regexp_lassoc_normal : forall r : re, left_normal (lassoc r).
+Proof. exact RegexpSyntaxProofs.lassoc_normal. Qed.
+
+(* the fully parenthesised syntax determines the expression: any parser that inverts print_full returns r itself *)
+Theorem C16_regexp_full_injective : forall r s : re, symbols_ok r -> symbols_ok s -> print_full r = print_full s -> r = s.
+Proof. exact RegexpSyntaxProofs.print_full_injective. Qed.
+
+(* str(r) is the simple text with " . " and " + " *)
+Theorem C16_regexp_str_simple : forall r : re, symbols_ok r -> RegexpSyntaxProofs.strip (print_str r) = print_simple r.
+Proof. exact RegexpSyntaxProofs.strip_print_str. Qed.
+
+(* grammars; eps is the epsilon character the parser is run with *)
+Theorem C16_cfg_print_parse_lines : forall (eps : nat) (G : cfg),
+  (forall A, In A (gV G) -> 165 <= A <= 190) ->
+  (forall a, In a (gSg G) -> 197 <= a <= 222) ->
+  cfg_wf G ->
+  (forall A, In A (gV G) -> exists r, In r (gR G) /\ rvar r = A) ->
+  (forall a, In a (gSg G) -> exists r, In r (gR G) /\ In (Tm a) (rrhs r)) ->
+  (exists r R', gR G = r :: R' /\ rvar r = gS G) ->
+  ~ In eps (gV G) -> ~ In eps (gSg G) ->
+  ((exists r, In r (gR G) /\ rrhs r = []) -> eps = c_eps) ->
+  exists G', parse_cfg_lines eps (print_cfg_lines G) = Some G' /\
+    seteq (gV G') (gV G) /\ seteq (gSg G') (gSg G) /\ gS G' = gS G /\
+    map rule_key (gR G') = CFGTextProofs.group_by (ordered_variables G) (map rule_key (gR G)) /\
+    Permutation (map rule_key (gR G')) (map rule_key (gR G)) /\
+    map rid (gR G') = seq 0 (length (gR G')).
+Proof. exact CFGTextProofs.print_parse_cfg_lines. Qed.
+
+(* with the parser's own choice of the epsilon character ('ε' if it occurs in the text, else '_') *)
+Theorem C16_cfg_print_parse_text : forall G : cfg,
+  (forall A, In A (gV G) -> 165 <= A <= 190) ->
+  (forall a, In a (gSg G) -> 197 <= a <= 222) ->
+  cfg_wf G ->
+  (forall A, In A (gV G) -> exists r, In r (gR G) /\ rvar r = A) ->
+  (forall a, In a (gSg G) -> exists r, In r (gR G) /\ In (Tm a) (rrhs r)) ->
+  (exists r R', gR G = r :: R' /\ rvar r = gS G) ->
+  exists G', parse_cfg_text (print_cfg_lines G) = Some G' /\
+    seteq (gV G') (gV G) /\ seteq (gSg G') (gSg G) /\ gS G' = gS G /\
+    map rule_key (gR G') = CFGTextProofs.group_by (ordered_variables G) (map rule_key (gR G)) /\
+    Permutation (map rule_key (gR G')) (map rule_key (gR G)) /\
+    map rid (gR G') = seq 0 (length (gR G')).
+Proof. exact CFGTextProofs.print_parse_cfg_text. Qed.
+
+(* cfg_print_simple does not raise on such a grammar *)
+Theorem C16_cfg_print_simple_some : forall G : cfg,
+  (forall A, In A (gV G) -> 165 <= A <= 190) -> (forall a, In a (gSg G) -> 197 <= a <= 222) ->
+  print_cfg_simple G = Some (print_cfg_lines G).
+Proof. exact CFGTextProofs.print_cfg_simple_some. Qed.
+
+Print Assumptions C16_regexp_simple_print_parse.
+Print Assumptions C16_regexp_simple_print_parse_lassoc.
+Print Assumptions C16_regexp_simple_print_parse_left_normal.
+Print Assumptions C16_regexp_lassoc_print.
+Print Assumptions C16_regexp_lassoc_lang.
+Print Assumptions C16_regexp_lassoc_normal.
+Print Assumptions C16_regexp_full_injective.
+Print Assumptions C16_regexp_str_simple.
+Print Assumptions C16_cfg_print_parse_lines.
+Print Assumptions C16_cfg_print_parse_text.
+Print Assumptions C16_cfg_print_simple_some.
